@@ -36,6 +36,9 @@ pub struct StakeCfg {
     pub tpw: u64,
     pub min_bond: u64,
     pub unbond_blocks: u8,
+    /// stake token is a cw20: bonding goes through `Receive(Cw20ReceiveMsg{Bond})` sent by the token contract
+    #[serde(default)]
+    pub cw20: bool,
 }
 
 /// who sends an admin-gated call
@@ -252,8 +255,9 @@ pub fn case_strategy(prop: &str, tier: Tier) -> BoxedStrategy<Case> {
         prop_oneof![10 => Just(1u64), 6 => 2u64..=10, 3 => Just(100u64), 2 => Just(1000u64), 1 => 1u64..5000, 1 => Just(0u64)],
         prop_oneof![3 => Just(0u64), 3 => Just(1u64), 8 => 2u64..40, 3 => 40u64..3000],
         1u8..4,
+        proptest::bool::weighted(0.4),
     )
-        .prop_map(|(tpw, min_bond, unbond_blocks)| StakeCfg { tpw, min_bond, unbond_blocks });
+        .prop_map(|(tpw, min_bond, unbond_blocks, cw20)| StakeCfg { tpw, min_bond, unbond_blocks, cw20 });
     let stake = (cfg, admin_init(), blocks(stake_op(prop), max_blocks, max_ops))
         .prop_map(|(cfg, admin, blocks)| Case { stake: Some(cfg), admin, members: vec![], blocks })
         .boxed();
@@ -290,6 +294,8 @@ enum X {
     AddHook { addr: String },
     RemoveHook { addr: String },
     Bond,
+    /// cw20 path: the token contract calls Receive{sender: user, amount, msg: Bond}
+    BondCw20 { user: String, amount: u128 },
     Unbond { tokens: u128 },
     Claim,
 }
@@ -408,7 +414,7 @@ impl World {
                 X::UpdateAdmin { admin } => E::UpdateAdmin { admin },
                 X::AddHook { addr } => E::AddHook { addr },
                 X::RemoveHook { addr } => E::RemoveHook { addr },
-                X::Bond | X::Unbond { .. } | X::Claim => return Err("not a cw4-group call".into()),
+                X::Bond | X::BondCw20 { .. } | X::Unbond { .. } | X::Claim => return Err("not a cw4-group call".into()),
             };
             self.d.tx(|deps, env| cw4_group::contract::execute(deps, env, info, msg))
         } else {
@@ -418,6 +424,12 @@ impl World {
                 X::AddHook { addr } => E::AddHook { addr },
                 X::RemoveHook { addr } => E::RemoveHook { addr },
                 X::Bond => E::Bond {},
+                X::BondCw20 { user, amount } => {
+                    let token = self.d.api.addr_make("stake-token");
+                    let msg = E::Receive(cw20::Cw20ReceiveMsg { sender: user, amount: Uint128::new(amount), msg: cosmwasm_std::to_json_binary(&cw4_stake::msg::ReceiveMsg::Bond {}).unwrap() });
+                    let info = Direct::info(&token, &[]);
+                    return self.d.tx(|deps, env| cw4_stake::contract::execute(deps, env, info, msg));
+                }
                 X::Unbond { tokens } => E::Unbond { tokens: Uint128::new(tokens) },
                 X::Claim => E::Claim {},
                 X::UpdateMembers { .. } => return Err("not a cw4-stake call".into()),
@@ -667,7 +679,7 @@ pub fn run_case(prop: &str, case: &Case, ctx: &mut CaseCtx) -> Result<(), Violat
         }
         Some(cfg) => {
             let msg = cw4_stake::msg::InstantiateMsg {
-                denom: Denom::Native(STAKE_DENOM.to_string()),
+                denom: if cfg.cw20 { Denom::Cw20(w.d.api.addr_make("stake-token")) } else { Denom::Native(STAKE_DENOM.to_string()) },
                 tokens_per_weight: Uint128::new(cfg.tpw as u128),
                 min_bond: Uint128::new(cfg.min_bond as u128),
                 unbonding_period: Duration::Height(cfg.unbond_blocks as u64),
@@ -783,6 +795,7 @@ pub fn run_case(prop: &str, case: &Case, ctx: &mut CaseCtx) -> Result<(), Violat
                     };
                     let s = *by as usize % N_ADDR as usize;
                     touched.insert(w.addr_strs[s].clone());
+                    let mut cw20_bond: Option<u128> = None;
                     match f {
                         Funds::Stake(a) => {
                             let amount = match a {
@@ -793,7 +806,11 @@ pub fn run_case(prop: &str, case: &Case, ctx: &mut CaseCtx) -> Result<(), Violat
                                     clamp_i((cfg.min_bond as u128).saturating_sub(st), *d)
                                 }
                             };
-                            funds.push(coin(amount.min(MAX_BOND), STAKE_DENOM));
+                            if cfg.cw20 {
+                                cw20_bond = Some(amount.min(MAX_BOND));
+                            } else {
+                                funds.push(coin(amount.min(MAX_BOND), STAKE_DENOM));
+                            }
                         }
                         Funds::WrongDenom(x) => funds.push(coin(*x as u128, OTHER_DENOM)),
                         Funds::Nothing => {}
@@ -802,7 +819,10 @@ pub fn run_case(prop: &str, case: &Case, ctx: &mut CaseCtx) -> Result<(), Violat
                             funds.push(coin(*x as u128, STAKE_DENOM));
                         }
                     }
-                    ("Bond", s, X::Bond)
+                    match cw20_bond {
+                        Some(amount) => ("Bond", s, X::BondCw20 { user: w.addr_strs[s].clone(), amount }),
+                        None => ("Bond", s, X::Bond),
+                    }
                 }
                 Op::Unbond { by, amt } => {
                     let Some(cfg) = &case.stake else {
@@ -836,6 +856,7 @@ pub fn run_case(prop: &str, case: &Case, ctx: &mut CaseCtx) -> Result<(), Violat
                 X::UpdateAdmin { admin } => format!("to={:?}", admin),
                 X::AddHook { addr } | X::RemoveHook { addr } => format!("hook={addr}"),
                 X::Bond => format!("funds={:?}", funds),
+                X::BondCw20 { amount, .. } => format!("cw20 amount={amount}"),
                 X::Unbond { tokens } => format!("tokens={tokens}"),
                 X::Claim => String::new(),
             };
